@@ -96,8 +96,9 @@ class Ctx:
         if signature in self.known:
             self.known_hit[signature] = what
             return
-        os.makedirs(os.path.join(ROOT, "replays"), exist_ok=True)
-        path = os.path.join(ROOT, "replays", f"{self.pid}-{sha1(signature)[:10]}.json")
+        rdir = os.environ.get("VERIF_REPLAY_DIR") or os.path.join(ROOT, "replays")
+        os.makedirs(rdir, exist_ok=True)
+        path = os.path.join(rdir, f"{self.pid}-{sha1(signature)[:10]}.json")
         rec = {"property": self.pid, "signature": signature, "what": what}
         rec.update(replay)
         with open(path, "w") as f:
@@ -165,8 +166,9 @@ class Ctx:
             "wall_s": round(time.time() - self.t0, 3),
             "violations": len(self.new_violations),
         }
-        os.makedirs(os.path.join(ROOT, "evidence"), exist_ok=True)
-        path = os.path.join(ROOT, "evidence", f"{self.pid}.json")
+        edir = os.environ.get("VERIF_EVIDENCE_DIR") or os.path.join(ROOT, "evidence")  # the override is used only by bin/mutmatrix
+        os.makedirs(edir, exist_ok=True)
+        path = os.path.join(edir, f"{self.pid}.json")
         tmp = path + ".tmp"
         with open(tmp, "w") as f:
             json.dump(ev, f, indent=1, default=str)
